@@ -899,6 +899,109 @@ def judgeC07 (ops : List OpRec) : List String :=
     { s with cluster := evolve s.cluster op }) ({} : J07)
   s.out
 
+/-! ### C19 -/
+
+structure J19 where
+  cluster : Cluster := {}
+  /-- the set the consumer must consume: topic ↦ sorted partition ids; none = no live consumer -/
+  spec : Option (List (Bytes × List Int)) := none
+  group : Bytes := []
+  out : List String := []
+
+def dedupI (xs : List Int) : List Int := xs.foldl (fun acc x => if acc.contains x then acc else acc ++ [x]) []
+
+def inSpec (spec : List (Bytes × List Int)) (t : Bytes) (p : Int) : Bool :=
+  match spec.find? (·.1 == t) with
+  | some (_, ps) => ps.contains p
+  | none => false
+
+def judgeC19 (ops : List OpRec) : List String :=
+  let v (s : J19) (sig : String) (op : OpRec) (d : String) : J19 :=
+    { s with out := s.out ++ [s!"{sig} | op {op.idx} `{" ".intercalate (op.toks.take 1)}`: {d}"] }
+  let s := ops.foldl (fun (s : J19) op =>
+    let s := { s with cluster := applySetup s.cluster op.setup }
+    let c := s.cluster
+    let reqs := framesOf op
+    let s := match op.toks with
+    | "consumer_create" :: _ :: opts =>
+      -- last call per topic wins
+      let calls : List (Bytes × Option (List Int)) := opts.filterMap fun o =>
+        let (k, x) := kv o
+        if k == "topic" then (fromHex x).map fun t => (t, none)
+        else if k == "tp" then match x.splitOn ":" with
+          | [t, ps] => (fromHex t).map fun t => (t, some (if ps == "" then [] else (ps.splitOn ",").filterMap (fun (x : String) => x.toInt?)))
+          | _ => none
+        else none
+      let amap : List (Bytes × Option (List Int)) := calls.foldl (fun (m : List (Bytes × Option (List Int))) (x : Bytes × Option (List Int)) =>
+        (m.filter fun (y : Bytes × Option (List Int)) => y.1 != x.1) ++ [x]) []
+      let group := ((lastOpt opts "group").bind fromHex).getD []
+      let resolved : List (Bytes × Option (List Int)) := amap.map fun (x : Bytes × Option (List Int)) =>
+        let t := x.1
+        let a := x.2
+        match c.topic? t with
+        | none => (t, none)
+        | some ts =>
+          let n := ts.parts.length
+          match a with
+          | none => (t, some ((List.range n).map fun (i : Nat) => (i : Int)))
+          | some [] => (t, some ((List.range n).map fun (i : Nat) => (i : Int)))
+          | some ps => if ps.all (fun (p : Int) => decide (0 ≤ p ∧ p.toNat < n)) then (t, some (sortBy (· < ·) (dedupI ps))) else (t, none)
+      if amap.isEmpty then
+        (if op.result == "err NoTopics" then s else v s "C19-no-topics-not-reported" op s!"result `{op.result}`")
+      else if resolved.any (·.2.isNone) then
+        let s := if op.result == "err Kafka(3)" then s else v s "C19-unknown-assignment-accepted" op s!"an assigned topic/partition does not exist, result `{op.result}`"
+        { s with spec := none }
+      else
+        let spec : List (Bytes × List Int) := resolved.filterMap fun (x : Bytes × Option (List Int)) => x.2.map fun ps => (x.1, ps)
+        if op.result == "ok" then
+          -- offsets loaded at creation are for exactly the set
+          let s := reqs.foldl (fun (s : J19) (x : Bytes × Request) => match x.2.body with
+            | ReqBody.offsetFetch _ ts =>
+              let got := sortBy (· < ·) (ts.flatMap fun (tp : Bytes × List Int) => tp.2.map fun (p : Int) => s!"{toHexTok tp.1}/{p}")
+              let want := sortBy (· < ·) (spec.flatMap fun (tp : Bytes × List Int) => tp.2.map fun (p : Int) => s!"{toHexTok tp.1}/{p}")
+              if got == want then s else v s "C19-group-offsets-set" op s!"group offsets asked for {got}, consumed set {want}"
+            | _ => s) s
+          { s with spec := some spec, group := group }
+        else { s with spec := none }
+    | ["subscriptions"] =>
+      match s.spec with
+      | some spec => if op.result == fmtSubs spec then s else v s "C19-subscriptions" op s!"reported `{op.result}`, consumed set `{fmtSubs spec}`"
+      | none => s
+    | ["poll"] =>
+      match s.spec with
+      | some spec => reqs.foldl (fun (s : J19) (x : Bytes × Request) => match x.2.body with
+          | ReqBody.fetch _ _ _ ts => ts.foldl (fun (s : J19) (tp : Bytes × List FetchPart) => let t := tp.1; tp.2.foldl (fun (s : J19) (p : FetchPart) =>
+              if inSpec spec t p.partition then s else v s "C19-fetch-foreign-partition" op s!"fetch asks for {toHexTok t}/{p.partition}, not in the consumed set") s) s
+          | _ => s) s
+      | none => s
+    | ["commit"] =>
+      match s.spec with
+      | some spec => reqs.foldl (fun (s : J19) (x : Bytes × Request) => match x.2.body with
+          | ReqBody.offsetCommit _ _ _ _ ts => ts.foldl (fun (s : J19) (tp : Bytes × List CommitPart) => let t := tp.1; tp.2.foldl (fun (s : J19) (p : CommitPart) =>
+              if inSpec spec t p.partition then s else v s "C19-commit-foreign-partition" op s!"commit names {toHexTok t}/{p.partition}, not in the consumed set") s) s
+          | _ => s) s
+      | none => s
+    | ["seek", t, p, _] =>
+      match s.spec, fromHex t, p.toInt? with
+      | some spec, some t, some p =>
+        if inSpec spec t p then (if op.result == "ok" then s else v s "C19-seek-rejected" op op.result)
+        else if op.result.startsWith "err" then s else v s "C19-seek-foreign-accepted" op s!"seek on {toHexTok t}/{p} (not consumed) returned `{op.result}`"
+      | _, _, _ => s
+    | ["consume", t, p, _] =>
+      match s.spec, fromHex t, p.toInt? with
+      | some spec, some t, some p =>
+        if inSpec spec t p then (if op.result == "ok" then s else v s "C19-consume-rejected" op op.result)
+        else if op.result.startsWith "err" then s else v s "C19-consume-foreign-accepted" op s!"marking {toHexTok t}/{p} (not consumed) returned `{op.result}`"
+      | _, _, _ => s
+    | ["last_consumed", t, p] =>
+      match s.spec, fromHex t, p.toInt? with
+      | some spec, some t, some p =>
+        if !inSpec spec t p && op.result != "ok none" then v s "C19-query-foreign" op s!"last_consumed on {toHexTok t}/{p} (not consumed) returned `{op.result}`" else s
+      | _, _, _ => s
+    | _ => s
+    { s with cluster := evolve s.cluster op }) ({} : J19)
+  s.out
+
 def judge (prop : String) (lines : List String) : List String :=
   let ops := parseOps lines
   match prop with
@@ -911,6 +1014,7 @@ def judge (prop : String) (lines : List String) : List String :=
   | "C20" => judgeC20 ops
   | "C16" => judgeC16 ops
   | "C07" => judgeC07 ops
+  | "C19" => judgeC19 ops
   | _ => []
 
 end Kafka.Judge
